@@ -3,8 +3,10 @@
 
    The model works on PARSED tables (the text codec is the business of C01/C02): a raw directory is
    the version text of the first line of sensors.txt plus, for each file / folder that exists, its rows
-   in file order, and for each feature kind and type the names of the images whose data file is visible
-   (in the folder, or in the tar when a handler is given).  [load_dir] mirrors the loader: version gate,
+   in file order, and for each feature kind and type the names of the images whose data file EXISTS:
+   folder storage: os.path.exists(<type folder>/<image><extension>) — symbolic links are followed, a link that
+   leads nowhere is not a data file, a file below a linked folder is; tar storage with a handler: a regular
+   member named <image><extension>.  [load_dir] mirrors the loader: version gate,
    sensors (last row of an id wins), rig/sensor collision check and one-pass member expunge, trajectory
    filter over sensors + rigs, one sensor-kind filter per records file (dict semantics: last row of a key
    wins), feature sets = listed files restricted to the images of the loaded camera records, matches
@@ -69,7 +71,7 @@ Record rawdir := {
   r_rigs : option (list (string * string));       (* rig id, member id *)
   r_traj : option (list (Z * string));            (* timestamp, device id *)
   r_records : rkind -> option (list row);
-  r_feat : fkind -> option ftable;                (* folder exists: types having a descriptor file, images having a data file *)
+  r_feat : fkind -> option ftable;                (* folder exists: types having a descriptor file, images whose data file exists (see above) *)
   r_matches : option mtable;                      (* folder exists: type sub-folders, pairs having a matches file *)
   r_pairs : option (list (string * string));      (* the optional pairs file handed to the loader *)
   r_points : option N;                            (* points3d.txt: number of points *)
